@@ -23,7 +23,7 @@ func init() {
 			"reason, the redirect carries the chosen server, and handleKickEvent disconnects with the result's reason.",
 		Explanation: "Decides: host normalisation used for the forced-hosts lookup, precedence forced hosts → try list, the three exclusions, list order, registered-only, disconnect with " +
 			"reason when nothing remains. Does not decide: the outcome for whole configurations and event handlers that override the result.",
-		Fixtures: []string{"provenance", "guardcut"},
+		Fixtures: []string{"provenance", "guardcut", "strshape"},
 		Variants: []Variant{
 			{Name: "forced-host-key-not-lowercased", File: pkgProxy + "/player.go",
 				Old: "\treturn strings.ToLower(hostname)\n", New: "\treturn hostname\n", Expect: "host-key"},
